@@ -100,7 +100,9 @@ def gen_mapseq(rng):
             ops.append([3] if r < qfail else ([2] if r < qfail + early else [0]))
             opened += 1
         else:
-            ops.append([1, rng.randrange(opened)])
+            r = rng.random()
+            # [4,k]: tunnel k is closed from outside and its local socket's Close() parks (connection still open); [5,k]: it returns
+            ops.append([4, rng.randrange(opened)] if r < 0.3 else ([5, rng.randrange(opened)] if r < 0.5 else [1, rng.randrange(opened)]))
     return {"mode": "mapseq", "kind": kind, "max": mx, "ops": ops}
 
 
@@ -146,6 +148,11 @@ def qlist_cases(thorough):
     return out
 
 
+def qclaim_cases(thorough):
+    """a create of the client arriving while an activation of one of its codes holds the claim (client at its limit)"""
+    return [{"mode": "qclaim", "max": m} for m in ([1, 2, 3, 10] + ([5] if thorough else []))]
+
+
 def qfault_cases(thorough):
     """exhaustive over the read positions of the count (the harness enumerates them) for a few limits"""
     limits = [1, 2, 3, 5, 10] + ([7, 16] if thorough else [])
@@ -182,6 +189,8 @@ def case_value(c, o, variants):
         # a counter below zero cannot be written as a model value: map it to a number no model run produces
         return [2, variants["mapping"], c["max"], [list(op) for op in c["ops"]],
                 [[a if a >= 0 else 999999, b] for a, b in o["counts"]], list(o["outcomes"])]
+    if m == "qclaim":
+        return [7, c["max"], list(o["outcomes"]), o["final"]]
     if m == "qlist":
         return [6, c["max"], c["pre"], list(o["keys"][0]) if o["keys"] else [], o["counts"][0][0] if o["counts"] else 0,
                 o["counts"][0][1] if o["counts"] else 0, c["n"], o["final"]]
@@ -219,13 +228,15 @@ def nontrivial(c, o):
     if m == "reg":
         return c["max"] > 0 and o["max_seen"] >= c["max"] and len(c["ops"]) > c["max"]
     if m == "mapseq":
-        return c["max"] > 0 and (2 in o["outcomes"] or o["max_seen"] > c["max"] or any(op[0] in (2, 3) for op in c["ops"]))
+        return c["max"] > 0 and (2 in o["outcomes"] or o["max_seen"] > c["max"] or any(op[0] in (2, 3, 4) for op in c["ops"]))
     if m == "regsched":
         return c["n"] >= 2
     if m == "quota":
         return not overlap_free(o["sched"], c["threads"]) or 2 in o["outcomes"] or 5 in o["outcomes"]
     if m == "qfault":
         return len(o["outcomes"]) >= 2
+    if m == "qclaim":
+        return len(o["outcomes"]) == 2
     if m == "qlist":
         return bool(o["keys"]) and len(o["keys"][0]) >= 2 and 2 in o["outcomes"]
     if m in ("maprace", "regrace"):
@@ -269,6 +280,7 @@ def run(ctx, only_cases=None):
         cases += [gen_quota(rng) for _ in range(120 * k)]
         cases += qfault_cases(thorough)
         cases += qlist_cases(thorough)
+        cases += qclaim_cases(thorough)
         cases += [gen_maprace(rng, 1500 if thorough else 250) for _ in range(16 if thorough else 8)]
         cases += [gen_regrace(rng, 200 if thorough else 30) for _ in range(12 if thorough else 6)]
         cases += [{"mode": "regrace", "kind": "tunnel-tid", "max": m, "pre": m, "n": 8, "trials": 200 if thorough else 30} for m in (1, 2, 3)]
@@ -289,6 +301,8 @@ def run(ctx, only_cases=None):
             key = pinned_key if variants[site] == 0 else other
         elif hk in QUOTA_KEYS and c["mode"] == "qlist":
             key = hk + "-uncounted-code"
+        elif hk in QUOTA_KEYS and c["mode"] == "qclaim":
+            key = hk + "-claimed-code-not-counted"
         elif hk in QUOTA_KEYS:
             # the recorded defect is the overlap of two admissions between count and create on a tree WITHOUT the per-client
             # admission marker; over the limit on an overlap-free schedule, or on a tree with the marker, is a new failure
@@ -303,7 +317,7 @@ def run(ctx, only_cases=None):
                 small["admitted"] = small["admitted"][:40] + ["..."]
             ctx.violation(key, "real code, mode %s: %s" % (c["mode"], o["prop_msg"]), {"case": c, "observed": small})
 
-    mc = [(c, o) for c, o in zip(cases, outs) if c["mode"] in ("server", "reg", "mapseq", "quota", "qfault", "regsched", "qlist") and o["prop_key"] != "harness"]
+    mc = [(c, o) for c, o in zip(cases, outs) if c["mode"] in ("server", "reg", "mapseq", "quota", "qfault", "regsched", "qlist", "qclaim") and o["prop_key"] != "harness"]
     terms = [case_value(c, o, variants) for c, o in mc]
     mism = []
     try:
@@ -350,7 +364,9 @@ def run(ctx, only_cases=None):
                 "real TunnelRegistry / ClientRegistry / SessionManager control registrations, non-trivial = limit reached. mapseq: open/close "
                 "histories with real tunnels, non-trivial = a refusal or the limit exceeded. quota: CreateConnectionCode / ActivateConnectionCode "
                 "callers parked at their first storage write by a gated store, non-trivial = two admissions overlap between count and create, "
-                "or a refusal. qlist: one CreateConnectionCode parked before every storage write with the client's codes listed at each park point, "
+                "or a refusal. qclaim: client at its code limit, the activation of one of its codes parked after Claim and before the code is written "
+                "back, a create arrives (must be refused: a claimed code is still active), activation finishes, a create is accepted. mapseq also has "
+                "closes from outside the copy loop with the local socket's Close() parked (the connection stays open and keeps its slot). qlist: one CreateConnectionCode parked before every storage write with the client's codes listed at each park point, "
                 "then sequential creates past the limit; oracle = codes that really exist (ground truth per handed-out code) <= limit and = the quota's count. regsched: a FULL control registry whose connections carry a stream that parks in Close(), k<=max concurrent "
                 "Registers of new connections driven by a schedule (start caller / let one parked Close go); count sampled after every step and "
                 "at the end, final key set compared with the model; non-trivial = at least two concurrent callers. mapseq histories include opens "
